@@ -992,6 +992,9 @@ func callBuiltin(caller *frame, fn *ssa.Builtin, args []value) value {
 		for k := 0; k < n; k++ {
 			tmp[k] = copyVal(sv[k])
 		}
+		if n > 0 && caller.i.path.watched != nil {
+			caller.i.noteWrite(&d[0], caller)
+		}
 		copy(d, tmp)
 		return n
 
